@@ -18,7 +18,11 @@ func (r *Runner) Run() error {
 		runner := r.App.Instructions[pc/4]
 		// Clear forward (the program may have been run by a forwarding machine)
 		runner.Forward(Forward{})
-		exe, err := runner.Run(r.Ctx, r.App.Labels, pc, nil, 0)
+		var memory []int8
+		for _, addr := range runner.MemoryRead(r.Ctx, 0) {
+			memory = append(memory, r.Ctx.Memory[addr])
+		}
+		exe, err := runner.Run(r.Ctx, r.App.Labels, pc, memory, 0)
 		if err != nil {
 			return err
 		}
